@@ -1873,3 +1873,57 @@ async fn d46_tiny_block_size_round_trip() {
 		tree.close().await.unwrap();
 	}
 }
+
+// D47: the level-compaction task runs ONE compaction per wake-up, and it is woken only by a finished flush (and at
+// start-up).  When L0 reaches the stall threshold while another level scores higher, the wake-ups that the last flushes
+// produced are spent on that other level; the stalled writers produce no further flush, nothing wakes the task again,
+// and L0 -- the reason for the stall -- is never compacted: commit() hangs.
+#[tokio::test(flavor = "multi_thread")]
+async fn d47_l0_stall_is_never_lifted_when_another_level_scores_higher() {
+	let d = td();
+	let counts = |tree: &Tree| -> Vec<usize> {
+		let m = tree.core.level_manifest.read().unwrap();
+		m.levels.get_levels().iter().map(|l| l.tables.len()).collect()
+	};
+	// built with roomy options: five disjoint tables in L1
+	{
+		let opts = mk_opts(d.path().to_path_buf(), |o| o.level_count = 4);
+		let tree = Tree::new(Arc::clone(&opts)).unwrap();
+		let big = vec![b'v'; 2048];
+		for g in [b'a', b'd', b'g', b'p', b'x'] {
+			for i in 0..4u8 {
+				put(&tree, &[g, b'0' + i], &big).await;
+				tree.flush().unwrap();
+			}
+			tree.compact(Arc::new(Strategy::default())).unwrap();
+		}
+		assert_eq!(counts(&tree)[..2], [0, 5], "precondition: L0 empty, five tables in L1");
+		tree.close().await.unwrap();
+	}
+	// reopened with a small L1 budget (options are not persisted): L1 scores far above 1
+	let opts = mk_opts(d.path().to_path_buf(), |o| {
+		o.level_count = 4;
+		o.level0_max_files = 2;
+		o.l0_stall_threshold = 2;
+		o.max_bytes_for_level = 1024;
+	});
+	let tree = Tree::new(Arc::clone(&opts)).unwrap();
+	tokio::time::sleep(std::time::Duration::from_millis(300)).await; // the start-up compaction
+	// two flushes bring L0 to the stall threshold; each finished flush wakes the level task once
+	for i in 0..2u8 {
+		put(&tree, &[b'm', b'0' + i], b"v").await;
+		tree.flush().unwrap();
+		tree.core.task_manager.lock().unwrap().as_ref().unwrap().wake_up_level();
+		tokio::time::sleep(std::time::Duration::from_millis(300)).await;
+	}
+	println!("D47 tables per level after the two flush wake-ups: {:?}", counts(&tree));
+	assert!(counts(&tree)[0] >= 2, "precondition: L0 is still at the stall threshold (the wake-ups went to L1)");
+	let mut tx = tree.begin().unwrap();
+	tx.set(b"z", b"v").unwrap();
+	let r = tokio::time::timeout(std::time::Duration::from_secs(5), tx.commit()).await;
+	println!("D47 tables per level at the end: {:?}", counts(&tree));
+	let stalled = r.is_err();
+	// (do not leave the store stalled behind: a failing assert would otherwise hang in the runtime's shutdown)
+	let _ = tokio::time::timeout(std::time::Duration::from_secs(10), tree.close()).await;
+	assert!(!stalled, "D47: commit() still stalled on the L0 file count after 5 s; nothing will ever compact L0");
+}
